@@ -126,7 +126,7 @@ C01_Readback == [][A_Readback]_vars
 (* C06: a rejected operation of the covered kinds leaves everything as it was *)
 Covered(e) ==
     \/ e.op \in {"SetAttr", "SetItem", "Ctor"}
-    \/ e.op = "COp" /\ e.o.m \in {"append", "insert", "setitem", "setdefault"}
+    \/ e.op = "COp" /\ e.o.m \in {"append", "insert", "setitem", "setdefault", "item_set"}
 A_Unchanged == (ev'.out # "ok" /\ Covered(ev')) => cfgs' = cfgs /\ ev'.repl = {}
 C06_Unchanged == [][A_Unchanged]_vars
 
